@@ -38,7 +38,10 @@ def gen_typed_column(R, n, kind=None, allow_null=True):
         return kind, s
     if kind == "str":
         style = R.choice(["cat", "cat", "rare", "prefix", "many", "unicode", "const", "casetwins"])
-        if style == "cat": labels = [f"v{i}" for i in range(R.choice([2, 3, 6]))]; vals = [R.choice(labels) for _ in range(n)]
+        if style == "cat":
+            labels = [f"v{i}" for i in range(R.choice([2, 3, 6]))]
+            if R.random() < 0.3: labels[0] = ""      # a blank string is a value like any other (it sorts first)
+            vals = [R.choice(labels) for _ in range(n)]
         elif style == "rare": vals = [R.choice(["common", "common", "common", "also"]) for _ in range(n)]; vals[R.randrange(n)] = "rare-one"; vals[R.randrange(n)] = "zz-rare"
         elif style == "prefix": vals = [R.choice(["street-12", "street-127", "street-9", "stride", "avenue-1"]) for _ in range(n)]
         elif style == "many": vals = [f"name{R.randint(0, 40):02d}" for _ in range(n)]
